@@ -219,6 +219,17 @@ def one_case(args):
     res = {'i': i, 'dir': d, 'behaviour': {k: (v if k != 'files' else {n: [t, len(b)] for n, (t, b) in v.items()}) for k, v in beh.items()},
            'script': script, 'flags': flags, 'refs': refs, 'problems': [], 'regen': regen, 'command': command,
            'sibling': beh.get('sibling', []), 'both': beh.get('both', []), 'tmp': beh.get('tmp', [])}
+    if i % 4 == 1 and refs == ['outdir']:
+        # (only when the directory is WATCHED: a glob or an explicit list names its files as outputs)
+        # an input the command does not touch, inside the watched output directory, with a modification time in the future
+        # (clock skew, an archive unpacked with preserved times): it is not an output of the command
+        inp = os.path.join(d, 'outdir', 'input-data.csv')
+        with open(inp, 'w') as f:
+            f.write('a,b\n1,2\n')
+        import time as _time
+        future = _time.time() + 36 * 3600
+        os.utime(inp, (future, future))
+        os.utime(os.path.join(d, 'keep.txt'), (future, future))
     if regen:
         rc0, out0 = G.run_gentest(d, script, flags, refs, command)
         if rc0 != 0:
